@@ -25,17 +25,18 @@ MANIFEST = {
             "under collision resistance of double SHA-256 (explicit hypothesis); armoured text parses back under the property's "
             "hypotheses; verify of the repaired code is total. Model tied to the code by differential correspondence in both "
             "arithmetic configurations on every run; oracles with independent arithmetic evaluate the property on the implementation.",
-    "note": "Partial theorems and their named gaps: *_sign_then_verify_*_partial / *_recover_is_signer_*_partial need C01 "
-            "recover_complete (RecoverComplete: recovery from the nonce abscissa with the parity of y yields d*G first); ranges, "
-            "recovery id and abscissa are derived from C01 signLoop_sound and C02 reducedness. C17_verify_total_partial needs "
-            "RecoverTotal (possible_public_pairs_for_signature raises nothing for r in [1,n-1], x < p, and returns reduced points). "
-            "C17_other_message_partial needs RecoverInjective and the cryptographic hypothesis that the two digests differ mod n "
-            "(collision resistance of double SHA-256). Unforgeability is not claimed. libsecp256k1 absent. The armour round trip is "
-            "proved for messages without armour marker lines, with one newline style, not ending in a lone CR.",
+    "note": "Recovery facts (complete / total / injective in z mod n, at every abscissa x < p with x != 0 mod n, no torsion "
+            "hypothesis) are proved in Proofs/RecoverX.lean on top of C01/C02; C17_recover_is_signer, C17_sign_then_verify and "
+            "C17_verify_total are hypothesis-free on curves satisfying MsgCurveOk (proved for secp256k1). Only "
+            "C17_other_message_partial keeps a hypothesis: the two digests differ mod n (collision resistance of double SHA-256). "
+            "Unforgeability is not claimed. libsecp256k1 absent. The armour round trip is proved for messages without armour marker "
+            "lines, with one newline style, not ending in a lone CR. History ops (msg_history) run call sequences on shared objects "
+            "in a new process per sequence, networks created in a chosen order, and compare every answer with a process that has "
+            "made no other call.",
     "technique": "Lean 4 proof over an executable model + differential correspondence model vs implementation per backend + "
                  "independent reference (hashlib, binascii, own secp256k1 arithmetic) as oracle",
 }
-RULE = ("ops msg_hash/msg_sign/msg_verify/msg_verify_h/msg_recover/armour/parse_armour/c17_b64* on networks btc xtn ltc doge dash axe "
+RULE = ("ops msg_hash/msg_sign/msg_verify/msg_verify_h/msg_recover/armour/parse_armour/msg_history/c17_b64* on networks btc xtn ltc doge dash axe "
         "btcd zec xmy in configurations pure and openssl; boundary corpus (header bytes 0..255, r,s in {0, no-point, n-1, n, n+1, "
         "p-1, p, 2^256-1}, recovery ids 2/3 with x = r+n, infinity recovery, lengths != 65, base64 padding variants, non-base64, "
         "non-ASCII) + seeded random; distinct = distinct op line; trivial = base64 codec ops")
@@ -151,6 +152,58 @@ def eval_op(op: str) -> str:
     return "bad-op"
 
 
+SIBLINGS = (("btc", "xtn", "xrt"), ("ltc", "xlt"), ("doge", "xdt"), ("dash", "tdash"))
+
+
+def _run_fresh(cfg: str, order, steps):
+    """evaluate `steps` one after the other in ONE new Python process that first imports (= creates) the networks in
+    `order`; returns the answers.  This is the only place where call history and creation order are under control."""
+    env = dict(os.environ)
+    env.pop("PYCOIN_NATIVE", None)
+    if cfg == "pure":
+        env["PYCOIN_NATIVE"] = "none"
+    inp = ",".join(order) + "\n" + "\n".join(steps) + "\n"
+    p = subprocess.run(["/venv/bin/python", os.path.abspath(__file__), "--history"], input=inp, capture_output=True, text=True,
+                       env=env, timeout=600)
+    out = p.stdout.split("\n")
+    if p.returncode != 0 or len(out) < len(steps) + 1 or not out[0].startswith("history openssl="):
+        from lib import Infra
+        raise Infra("history process failed: rc=%d %s" % (p.returncode, p.stderr[-300:]))
+    if out[0] != "history openssl=%d" % (1 if cfg == "openssl" else 0):
+        from lib import Infra
+        raise Infra("history process is in the wrong configuration: " + out[0])
+    return out[1:1 + len(steps)]
+
+
+def _run_fresh_each(cfg: str, steps):
+    """every step in a process of its own that has made no call and created no network before: a pristine parent
+    (pycoin imported, no symbol module) forks one child per step"""
+    env = dict(os.environ)
+    env.pop("PYCOIN_NATIVE", None)
+    if cfg == "pure":
+        env["PYCOIN_NATIVE"] = "none"
+    p = subprocess.run(["/venv/bin/python", os.path.abspath(__file__), "--fresh-each"], input="\n".join(steps) + "\n",
+                       capture_output=True, text=True, env=env, timeout=600)
+    out = p.stdout.split("\n")
+    if p.returncode != 0 or len(out) < len(steps) + 1 or out[0] != "fresh openssl=%d" % (1 if cfg == "openssl" else 0):
+        from lib import Infra
+        raise Infra("fresh-each process failed: rc=%d %r %s" % (p.returncode, out[:1], p.stderr[-300:]))
+    return out[1:1 + len(steps)]
+
+
+def _steps_of(arg: str):
+    return [st.replace("~", " ") for st in arg.split(";")]
+
+
+def eval_history(op: str) -> str:
+    a = op.split(" ")
+    steps = _steps_of(a[3])
+    if any(st.split(" ")[0] not in ("msg_hash", "msg_sign", "msg_verify", "msg_verify_h", "msg_recover", "armour", "parse_armour") for st in steps):
+        return "bad-op"
+    ans = _run_fresh(a[1], a[2].split(","), steps)
+    return "ok " + ";".join(x.replace(" ", "~") for x in ans)
+
+
 def op_config(op: str) -> str:
     a = op.split(" ")
     if a[0] in ("msg_sign", "msg_verify", "msg_verify_h", "msg_recover"):
@@ -216,7 +269,9 @@ def impl(op: str) -> str:
     r = _CACHE.get(op)
     if r is None:
         cfg = op_config(op)
-        if cfg == "pure":
+        if op.startswith("msg_history "):
+            r = eval_history(op)
+        elif cfg == "pure":
             r = _call_pure(op)
         elif cfg == "openssl":
             _check_this_process_is_openssl()
@@ -523,11 +578,29 @@ def oracle(op: str, out: str):
             if back != "ok %s %s %s" % (a[2], a[3], a[4]):
                 return "armoured text does not parse back to (message, address, signature): " + back[:200]
         return None
-    if k == "parse_armour":
-        if not _lower_table_ok():
-            return None
+    if k == "msg_history":
+        if not out.startswith("ok "):
+            return "history run failed: " + out
+        steps = _steps_of(a[3])
+        got = [x.replace("~", " ") for x in out[3:].split(";")]
+        need = [st for st in steps if (a[1], st) not in _FRESH]
+        if need:
+            for st, r in zip(need, _run_fresh_each(a[1], need)):
+                _FRESH[(a[1], st)] = r
+        for i, (st, g) in enumerate(zip(steps, got)):
+            sa = st.split(" ")
+            fresh = _FRESH[(a[1], st)]
+            if g != fresh:
+                return "call %d of a sequence on shared objects (`%s`) answers %s; the same call in a fresh process answers %s" % (
+                    i + 1, st[:80], g[:80], fresh[:80])
+            why = oracle(st, g) if sa[0] != "msg_sign" else None
+            if why:
+                return "call %d of a sequence: %s" % (i + 1, why)
         return None
     return None
+
+
+_FRESH: dict = {}
 
 
 def trivial(op: str) -> bool:
@@ -801,12 +874,47 @@ def gen(ctx, emit):
             sig = _mk_sig(rng.choice([29, 30, 33, 34]), rr, rng.randrange(1, n))
         emit("msg_verify %s %s %s %s %s" % (net, cfg, spec, tx(sig), tx("m")))
     # random well-formed signatures (recover some key): verify answers False for the fixed key, never raises
-    for _ in range(ctx.n(10, 500)):
+    for _ in range(ctx.n(6, 500)):
         net, cfg = rng.choice(NETS), rng.choice(CONFIGS)
         sig = _mk_sig(rng.randrange(27, 35), _point_r(rng.randrange(1, n)), rng.randrange(1, n))
         emit("msg_verify %s %s %s %s %s" % (net, cfg, rng.choice(key_specs), tx(sig), tx(rand_text(rng, 10))))
         if rng.random() < 0.3:
             emit("msg_recover %s %s %s %d" % (net, cfg, tx(sig), rng.randrange(two256)))
+
+    # ---- call histories: one signer object across calls with shrinking and growing messages, then same-named sibling
+    # networks (one magic, several network objects) in both creation orders; every answer must be that of a fresh process
+    def history(cfg, order, nets_cycle):
+        dh = rand_d(rng)
+        msgs = ["L" * 300, "s", "", "m" * 40, "L" * 300, "ab", "x" * 253, "ü" * 30, "s"] if ctx.thorough else ["L" * 300, "s", "", "L" * 300, "m" * 40]
+        steps = []
+        for i, m in enumerate(msgs):
+            net = nets_cycle[i % len(nets_cycle)]
+            steps.append("msg_hash %s %s" % (net, tx(m)))
+        Qh = ref_pub(dh)
+        for i, m in enumerate(("long message " * 20, "s", "", "mid-size message") if ctx.thorough else ("long message " * 20, "s")):
+            net = nets_cycle[i % len(nets_cycle)]
+            other = nets_cycle[(i + 1) % len(nets_cycle)]
+            sig = untx(impl("msg_sign %s %s %d 1 0 %s" % (net, cfg, dh, tx(m)))[3:])
+            steps.append("msg_sign %s %s %d 1 %d %s" % (net, cfg, dh, i % 2, tx(m)))
+            steps.append("msg_verify %s %s p:%d,%d %s %s" % (other, cfg, Qh[0], Qh[1], tx(sig), tx(m)))
+            steps.append("msg_verify %s %s a:%s %s %s" % (other, cfg, tx(_net(other).keys.private(dh).address()), tx(sig), tx(m)))
+            steps.append("msg_verify %s %s p:%d,%d %s %s" % (net, cfg, Qh[0], Qh[1], tx(sig), tx(m + "!")))
+        emit("msg_history %s %s %s" % (cfg, ",".join(order), ";".join(st.replace(" ", "~") for st in steps)), "history")
+    fam = SIBLINGS[0]
+    history("openssl", ["btc"], ["btc"])
+    history("pure", list(fam), list(fam))
+    history("openssl", list(reversed(fam)), list(fam))
+    extra = SIBLINGS[1:] if ctx.thorough else [SIBLINGS[1 + ctx.seed % 3]]
+    for famx in extra:
+        if ctx.thorough:
+            history("pure", list(famx), list(famx))
+        history("openssl", list(reversed(famx)), list(famx))
+    if ctx.thorough:
+        allnets = [n_ for f in SIBLINGS for n_ in f]
+        for _ in range(6):
+            order = allnets[:]
+            rng.shuffle(order)
+            history(rng.choice(CONFIGS), order, rng.sample(allnets, 4))
 
     # ---- sign: the oracle runs verify (key, address), recovery, and the foreign key / address / message checks
     corner = [("btc", "openssl", 1, True, ""), ("btc", "pure", 1, False, "a"), ("xtn", "pure", n - 1, True, "hello\nworld"),
@@ -814,7 +922,7 @@ def gen(ctx, emit):
     for net, cfg, d, comp, text in corner:
         emit("msg_sign %s %s %d %d 0 %s" % (net, cfg, d, 1 if comp else 0, tx(text)))
         emit("msg_sign %s %s %d %d 1 %s" % (net, cfg, d, 1 if comp else 0, tx(text)))
-    for i in range(ctx.n(30, 600)):
+    for i in range(ctx.n(20, 600)):
         net, cfg = NETS[i % len(NETS)], CONFIGS[(i // 2) % 2]
         d, comp, text = rand_d(rng), rng.random() < 0.5, rand_message(rng)
         verbose = rng.random() < 0.4
@@ -862,5 +970,57 @@ def _main():
         sys.stdout.flush()
 
 
+def _history_main():
+    lines = sys.stdin.read().split("\n")
+    import importlib
+    for m in lines[0].split(","):
+        _NET[m] = importlib.import_module("pycoin.symbols." + m).network
+    from pycoin.ecdsa.secp256k1 import secp256k1_generator
+    has_ossl = any("openssl" in c.__module__ and c.__name__ == "Optimizations" for c in type(secp256k1_generator).__mro__)
+    print("history openssl=%d" % (1 if has_ossl else 0))
+    for line in lines[1:]:
+        if line:
+            print(eval_op(line))
+
+
+def _fresh_each_main():
+    steps = [l for l in sys.stdin.read().split("\n") if l]
+    import pycoin.networks.bitcoinish  # noqa: F401  (code only: no network object exists yet)
+    from pycoin.ecdsa.secp256k1 import secp256k1_generator
+    has_ossl = any("openssl" in c.__module__ and c.__name__ == "Optimizations" for c in type(secp256k1_generator).__mro__)
+    if any(m.startswith("pycoin.symbols.") for m in sys.modules):
+        print("fresh parent already holds a network")
+        return
+    print("fresh openssl=%d" % (1 if has_ossl else 0))
+    sys.stdout.flush()
+    for st in steps:
+        r, w = os.pipe()
+        pid = os.fork()
+        if pid == 0:
+            os.close(r)
+            try:
+                ans = eval_op(st)
+            except BaseException as e:  # noqa: BLE001
+                ans = "err " + type(e).__name__
+            os.write(w, ans.encode())
+            os._exit(0)
+        os.close(w)
+        buf = b""
+        while True:
+            chunk = os.read(r, 65536)
+            if not chunk:
+                break
+            buf += chunk
+        os.close(r)
+        os.waitpid(pid, 0)
+        print(buf.decode())
+        sys.stdout.flush()
+
+
 if __name__ == "__main__":
-    _main()
+    if "--history" in sys.argv:
+        _history_main()
+    elif "--fresh-each" in sys.argv:
+        _fresh_each_main()
+    else:
+        _main()
